@@ -26,16 +26,16 @@ impl<'a> WireFormat<'a> for DNSKEY<'a> {
     where
         Self: Sized,
     {
-        let flags = u16::from_be_bytes(data[*position..*position + 2].try_into()?);
+        let flags = u16::from_be_bytes(data.get(*position..*position + 2).ok_or(crate::SimpleDnsError::InsufficientData)?.try_into()?);
         *position += 2;
 
-        let protocol = data[*position];
+        let protocol = *data.get(*position).ok_or(crate::SimpleDnsError::InsufficientData)?;
         *position += 1;
 
-        let algorithm = data[*position];
+        let algorithm = *data.get(*position).ok_or(crate::SimpleDnsError::InsufficientData)?;
         *position += 1;
 
-        let public_key = Cow::Borrowed(&data[*position..]);
+        let public_key = Cow::Borrowed(data.get(*position..).ok_or(crate::SimpleDnsError::InsufficientData)?);
         *position += public_key.len();
 
         Ok(Self {
